@@ -168,6 +168,24 @@ func c20DecodeOracle(in c20DecIn) probe.Outcome {
 			return probe.Fail("decoded header changed when the receive buffer was overwritten")
 		}
 	}
+	// a decoded message, too, encodes deterministically (Go randomises map iteration: several rounds)
+	if !in.Protect {
+		var first []byte
+		for i := 0; i < 6; i++ {
+			var y []byte
+			if err := probe.Try(func() error { var e error; y, e = m.Encode(); return e }); err != nil {
+				if probe.IsPanic(err) && i > 0 {
+					return probe.Fail("Encode of a decoded message panics on repetition %d only: %v", i+1, err)
+				}
+				break // not encodable: nothing to compare
+			}
+			if i == 0 {
+				first = y
+			} else if !bytes.Equal(first, y) {
+				return probe.Fail("repeated encodings of the same decoded, unmodified message differ (repetition %d)\n first %x\n now   %x", i+1, first, y)
+			}
+		}
+	}
 	variable := false
 	for _, p := range before.Payloads {
 		if model.BodySize(p) > 0 {
